@@ -5,13 +5,10 @@ from __future__ import annotations
 import ast
 from fractions import Fraction
 
-from ..flow import enumerate_paths, guards_of
 from ..peval import Evaluator, Unsupported
-from ..poly import Poly, Rat, S, Fn
-from ..source import AnalysisError, FuncInfo, norm, const_value, walk_no_nested
-from ..specs import npmodel, operators as optab
-from .common import (attr_chain, bind_call, calls_in, is_name, params, returns_of, root_name, single_return,
-                     stores_in, flatten_targets, body_wo_doc)
+from ..poly import Poly, Rat, S
+from ..source import AnalysisError, FuncInfo, norm, const_value
+from .common import bind_call, is_name, params, single_return
 
 ARRAY = "core/array.py::Array"
 BINOP = "core/array.py::_binary_op"
@@ -50,38 +47,6 @@ def dunder_semantics(tree, fi):
     }
 
 
-def check_operator_table(run, tree, table, cls_qual=ARRAY):
-    """Every dunder in `table` resolves to _binary_op(<ufunc>, self, other[, strict][, out=self]) per S4."""
-    ci = tree.cls(cls_qual)
-    for dunder, (names, strict, inplace) in table.items():
-        fi = tree.method(ci, dunder)
-        construct = "%s.%s" % (cls_qual, dunder)
-        if fi is None or fi.cls.qual != ci.qual:
-            run.violated(construct, ci.module.rel, "operator %s is not defined on Array" % dunder,
-                         "any expression using this operator falls back to object/numpy semantics without unit handling")
-            continue
-        run.analysed(fi)
-        sem = dunder_semantics(tree, fi)
-        if sem is None:
-            run.unresolved(construct, fi.where(), "body is not a single `return _binary_op(...)`: %s" % (
-                norm(fi.node.body[-1])[:120]))
-            continue
-        problems = []
-        if sem["ufunc"] not in names:
-            problems.append("ufunc is %s, table requires %s" % (sem["ufunc"], "/".join(names)))
-        if sem["strict"] is not strict:
-            problems.append("strict=%r, table requires %r (%s)" % (
-                sem["strict"], strict, "incompatible units must raise" if strict else
-                "incompatible units must multiply/divide into a derived unit"))
-        if not sem["lhs_self"] or not sem["rhs_param"]:
-            problems.append("operands are not (self, other) in this order")
-        if inplace and not sem["out_self"]:
-            problems.append("in-place operator does not pass out=self")
-        if not inplace and sem["has_out"]:
-            problems.append("out-of-place operator passes out=")
-        run.ob(construct, not problems, fi.where(), "; ".join(problems) or "%s strict=%s%s" % (
-            sem["ufunc"], sem["strict"], " out=self" if sem["out_self"] else ""),
-               "a %s b with %s" % (dunder, "operands in compatible but different units" if strict else "any operands"))
 
 
 # ----------------------------------------------------------------- composite operators in the S/O algebra
@@ -202,138 +167,6 @@ def check_composites(run, tree, names, cls_qual=ARRAY):
 
 
 # =============================================================================== _binary_op paths
-def analyse_binary_op(run, tree, rule_prefix, want_strict=(True, False)):
-    """C02.R2 / C07.R2 / C17.R3: conversion dominates the numpy call; rhs/lhs state never written."""
-    fi = tree.func(BINOP)
-    run.analysed(fi)
-    pn = params(fi)
-    if len(pn) < 3:
-        raise AnalysisError("_binary_op signature changed: %s" % pn)
-    OP, L, R = pn[0], pn[1], pn[2]
-    strict_name = "strict"
-    allargs = [a.arg for a in fi.node.args.args + fi.node.args.kwonlyargs]
-    if strict_name not in allargs:
-        run.violated(BINOP + "::strict-parameter", fi.where(), "_binary_op has no `strict` parameter any more",
-                     "additive/comparison operators and multiplicative operators need different unit policies")
-        return
-    # default of strict must be True
-    bound, _, _ = bind_call(fi.node, ast.Call(func=ast.Name(id="f"), args=[], keywords=[]))
-    run.ob(BINOP + "::strict-default", const_value(bound.get("strict")) is True, fi.where(),
-           "default strict=%s" % (norm(bound["strict"]) if "strict" in bound else "?"),
-           "a + b with incompatible units (operators rely on the default)")
-
-    def is_conversion(st):
-        """rhs = rhs.to(lhs.unit)  (or the symmetric lhs = lhs.to(rhs.unit))"""
-        if not (isinstance(st, ast.Assign) and len(st.targets) == 1 and isinstance(st.targets[0], ast.Name)):
-            return None
-        v = st.value
-        if not (isinstance(v, ast.Call) and isinstance(v.func, ast.Attribute) and v.func.attr == "to"
-                and len(v.args) == 1 and not v.keywords):
-            return None
-        tgt = st.targets[0].id
-        recv = v.func.value
-        arg = v.args[0]
-        if not (isinstance(arg, ast.Attribute) and arg.attr == "unit" and isinstance(arg.value, ast.Name)):
-            return None
-        if is_name(recv, tgt) and tgt == R and arg.value.id == L:
-            return "rhs->lhs.unit"
-        if is_name(recv, tgt) and tgt == L and arg.value.id == R:
-            return "lhs->rhs.unit"
-        return None
-
-    def is_op_call(node):
-        return isinstance(node, ast.Call) and is_name(node.func, OP)
-
-    paths = enumerate_paths(fi.node.body)
-    n_checked = 0
-    for strict in want_strict:
-        for path in paths:
-            # feasibility under the mode
-            feasible = True
-            for it in path:
-                if it[0] == "test" and is_name(it[1], strict_name) and it[2] != strict:
-                    feasible = False
-                if it[0] == "test" and isinstance(it[1], ast.UnaryOp) and isinstance(it[1].op, ast.Not) and is_name(
-                        it[1].operand, strict_name) and it[2] == strict:
-                    feasible = False
-            if not feasible:
-                continue
-            converted = None
-            raised_in_conversion = False
-            swallowed = []
-            for idx, it in enumerate(path):
-                if it[0] == "stmt":
-                    c = is_conversion(it[1])
-                    if c:
-                        converted = c
-                    calls = [n for n in ast.walk(it[1]) if is_op_call(n)]
-                    for call in calls:
-                        n_checked += 1
-                        where = fi.where(call)
-                        construct = "%s::op-call[strict=%s]" % (BINOP, strict)
-                        args_ok = (len(call.args) >= 2 and is_name(call.args[0], L) and is_name(call.args[1], R))
-                        kw_fwd = any(k.arg is None for k in call.keywords)
-                        if not args_ok:
-                            run.violated(construct + "::operands", where,
-                                         "numpy op is called as %s, expected (%s, %s, ...)" % (norm(call), L, R),
-                                         "non-commutative operators (a - b, a / b, a < b)")
-                        if not kw_fwd:
-                            run.violated(construct + "::kwargs", where, "extra keyword arguments (out=) are not forwarded",
-                                         "x += y does not update x")
-                        if strict:
-                            run.ob(construct, converted is not None and not raised_in_conversion, where,
-                                   "path reaches the numpy call %s" % ("after " + converted if converted else
-                                                                       "WITHOUT converting the operands to a common unit"),
-                                   "Array(1,'m') + Array(1,'cm'): raw numbers combined as if both were in the same unit")
-                        else:
-                            run.ob(construct, converted is not None or raised_in_conversion, where,
-                                   "non-strict path: conversion %s" % ("done: " + converted if converted else
-                                                                       "failed with a swallowed error" if raised_in_conversion
-                                                                       else "NOT attempted"),
-                                   "Array(1,'m') * Array(1,'cm') = 1 m*cm instead of 0.01 m**2 (the rest of osyris, e.g. "
-                                   "Vector.dot, relies on the conversion)")
-                elif it[0] == "raise-in":
-                    if is_conversion(it[2]):
-                        raised_in_conversion = True
-                elif it[0] == "handler":
-                    h = it[1]
-                    if raised_in_conversion:
-                        tnames = []
-                        if h.type is None:
-                            tnames = ["<bare>"]
-                        else:
-                            for e in (h.type.elts if isinstance(h.type, ast.Tuple) else [h.type]):
-                                r = tree.resolve_expr(fi.module, e)
-                                tnames.append(r[1] if isinstance(r, tuple) and r[0] == "ext" else norm(e))
-                        swallowed = tnames
-                        construct = "%s::conversion-handler[strict=%s]" % (BINOP, strict)
-                        only_dim = all(t.endswith("DimensionalityError") for t in tnames)
-                        if strict:
-                            run.violated(construct, fi.where(h),
-                                         "on the strict path a failed unit conversion is caught (%s)" % ", ".join(tnames),
-                                         "Array(1,'m') + Array(1,'s') returns a number instead of raising")
-                        else:
-                            run.ob(construct, only_dim, fi.where(h),
-                                   "non-strict conversion failure handler catches %s" % ", ".join(tnames),
-                                   "errors other than a dimensionality mismatch are hidden")
-    if n_checked == 0:
-        run.unresolved(BINOP + "::op-call", fi.where(), "no call of the `op` parameter found on any path")
-    # no store through lhs / rhs (operands unchanged when the conversion raises; rhs never written)
-    bad = []
-    for tgt, st in stores_in(fi.node):
-        for t in flatten_targets(tgt):
-            if isinstance(t, (ast.Attribute, ast.Subscript)) and root_name(t) in (L, R):
-                bad.append((t, st))
-    for n in walk_no_nested(fi.node):
-        if isinstance(n, ast.Call) and isinstance(n.func, ast.Attribute) and root_name(n.func.value) in (L, R) and \
-                n.func.attr in MUTATORS:
-            bad.append((n, n))
-    for t, st in bad:
-        run.violated("%s::operand-store::%s" % (BINOP, norm(t)), fi.where(st),
-                     "_binary_op writes into an operand: %s" % norm(st)[:100],
-                     "`a + b` raising on incompatible units after having modified a or b; `x += y` modifying y")
-    if not bad:
-        run.holds(BINOP + "::operands-not-written", fi.where(), "no attribute/subscript store or mutating call on %s/%s" % (L, R))
 
 
 MUTATORS = {"update", "pop", "append", "extend", "clear", "sort", "setdefault", "insert", "remove", "fill",
@@ -342,248 +175,20 @@ MUTATORS = {"update", "pop", "append", "extend", "clear", "sort", "setdefault", 
 
 
 # =============================================================================== _wrap_numpy
-class WrapFacts:
-    pass
 
 
-def analyse_wrap_numpy(tree):
-    """Structural facts about Array._wrap_numpy derived from its paths."""
-    fi = tree.func(ARRAY + "._wrap_numpy")
-    mi = fi.module
-    pn = params(fi)  # self, func
-    if len(pn) < 2 or fi.node.args.vararg is None or fi.node.args.kwarg is None:
-        raise AnalysisError("_wrap_numpy signature changed")
-    SELF, FUNC = pn[0], pn[1]
-    ARGS, KW = fi.node.args.vararg.arg, fi.node.args.kwarg.arg
-    f = WrapFacts()
-    f.fi, f.SELF, f.FUNC, f.ARGS, f.KW = fi, SELF, FUNC, ARGS, KW
-    apply_name = None
-    for n in walk_no_nested(fi.node):
-        if isinstance(n, ast.Compare) and len(n.ops) == 1 and isinstance(n.ops[0], ast.In):
-            l = n.left
-            if isinstance(l, ast.Attribute) and l.attr == "__name__" and is_name(l.value, FUNC):
-                apply_name = n.comparators[0]
-                f.apply_test = n
-    f.apply_tuple = None
-    if apply_name is not None:
-        r = tree.resolve_expr(mi, apply_name) if isinstance(apply_name, (ast.Name, ast.Attribute)) else None
-        node = r[2] if isinstance(r, tuple) and r[0] == "value" else apply_name
-        if isinstance(node, (ast.Tuple, ast.List, ast.Set)):
-            vals = [const_value(e) for e in node.elts]
-            if all(isinstance(v, str) for v in vals):
-                f.apply_tuple = vals
-    # classify every assignment to the unit variable and every path
-    f.paths = []
-    for path in enumerate_paths(fi.node.body):
-        unit_kind, unit_node = "unset", None
-        conds = []
-        result_call = None
-        for it in path:
-            if it[0] == "test":
-                conds.append((it[1], it[2]))
-            elif it[0] == "stmt":
-                st = it[1]
-                if isinstance(st, ast.Assign) and len(st.targets) == 1 and is_name(st.targets[0], "unit"):
-                    unit_kind, unit_node = classify_unit_value(f, st.value), st
-                for c in calls_in(st):
-                    if is_name(c.func, FUNC) and result_call is None and not _is_units_call(f, c):
-                        result_call = c
-        f.paths.append({"conds": conds, "unit": unit_kind, "unit_node": unit_node, "exit": path[-1],
-                        "result_call": result_call, "path": path})
-    return f
 
 
-def _is_units_call(f, call):
-    """func(*self._extract_units(args), ...) — the call that derives the unit."""
-    for a in call.args:
-        if isinstance(a, ast.Starred) and isinstance(a.value, ast.Call) and isinstance(a.value.func, ast.Attribute) \
-                and "unit" in a.value.func.attr:
-            return True
-    return False
 
 
-def classify_unit_value(f, v):
-    if isinstance(v, ast.Constant) and v.value is None:
-        return "none"
-    if isinstance(v, ast.Attribute) and v.attr == "unit" and is_name(v.value, f.SELF):
-        return "inherit"
-    if isinstance(v, ast.Attribute) and v.attr == "units" and isinstance(v.value, ast.Call) and is_name(
-            v.value.func, f.FUNC) and _is_units_call(f, v.value):
-        return "derived"
-    return "other:" + norm(v)[:60]
 
 
-class DtypeEval(Evaluator):
-    """D7: evaluates a dtype predicate for one concrete dtype of the model."""
-
-    def __init__(self, tree, fi, dtype, dtype_exprs):
-        super().__init__({})
-        self.tree, self.fi, self.dtype, self.dtype_exprs = tree, fi, dtype, dtype_exprs
-
-    def ev(self, node):
-        if norm(node) in self.dtype_exprs:
-            return self.dtype
-        return super().ev(node)
-
-    def ev_Name(self, node):
-        if node.id in ("int", "float", "bool", "complex", "object", "str"):
-            return npmodel.PyType(node.id)
-        r = self.tree.resolve_name(self.fi.module, node.id)
-        if isinstance(r, tuple) and r[0] == "ext" and r[1].startswith("numpy."):
-            return npmodel.NpType(r[1][6:])
-        raise Unsupported("name %s in dtype predicate" % node.id)
-
-    def ev_Attribute(self, node):
-        d = self.tree.dotted(self.fi.module, node)
-        if d == "numpy.issubdtype":
-            return npmodel.issubdtype
-        if d and d.startswith("numpy."):
-            return npmodel.NpType(d[6:])
-        base = self.ev(node.value)
-        if isinstance(base, npmodel.DType) and node.attr == "kind":
-            return base.kind
-        if isinstance(base, npmodel.DType) and node.attr == "name":
-            return base.name
-        if isinstance(base, npmodel.DType) and node.attr == "type":
-            return npmodel.NpType(base.name)
-        raise Unsupported("attribute %s in dtype predicate" % node.attr)
-
-    def call(self, node, func, args, kwargs):
-        if func is npmodel.issubdtype:
-            try:
-                return npmodel.issubdtype(*args)
-            except ValueError as e:
-                raise Unsupported("issubdtype(%s)" % e)
-        if isinstance(func, npmodel.NpType) and func.name == "dtype" and len(args) == 1:
-            a = args[0]
-            if isinstance(a, npmodel.PyType):
-                return npmodel.DType(npmodel.PYTYPE_TO_DTYPE[a.name])
-            if isinstance(a, npmodel.NpType) and a.name in npmodel.DTYPES:
-                return npmodel.DType(a.name)
-            if isinstance(a, str) and a in npmodel.DTYPES:
-                return npmodel.DType(a)
-        raise Unsupported("call %s in dtype predicate" % norm(node.func))
 
 
-def dtype_gate_table(tree, f):
-    """For each model dtype: does a result of that dtype keep a unit (some path assigns a non-None unit)?
-    Returns {dtype name: True/False} or raises Unsupported."""
-    fi = f.fi
-    # expressions denoting the result dtype: <name>.dtype where <name> is assigned from the numpy call
-    dtype_exprs = set()
-    for n in walk_no_nested(fi.node):
-        if isinstance(n, ast.Attribute) and n.attr == "dtype":
-            dtype_exprs.add(norm(n))
-    table = {}
-    for name in npmodel.DTYPES:
-        d = npmodel.DType(name)
-        keeps = set()
-        for p in f.paths:
-            if p["exit"][1] == "raise":
-                continue
-            feasible = True
-            for test, outcome in p["conds"]:
-                mentions = any(norm(x) in dtype_exprs for x in ast.walk(test))
-                if not mentions:
-                    continue
-                ev = DtypeEval(tree, fi, d, dtype_exprs)
-                val = ev.truth(ev.ev(test), test)
-                if val != outcome:
-                    feasible = False
-                    break
-            if feasible:
-                keeps.add(p["unit"] in ("inherit", "derived") or p["unit"].startswith("other"))
-        table[name] = keeps
-    return table
 
 
-def check_dtype_gate(run, tree, want_numeric=True, want_bool=True):
-    f = analyse_wrap_numpy(tree)
-    run.analysed(f.fi)
-    try:
-        table = dtype_gate_table(tree, f)
-    except Unsupported as e:
-        run.unresolved(ARRAY + "._wrap_numpy::dtype-gate", f.fi.where(), "cannot evaluate the dtype predicate: %s" % e)
-        return
-    run.extra.setdefault("dtype_gate_table", {k: sorted(v) for k, v in table.items()})
-    for name, kind in npmodel.DTYPES.items():
-        keeps = table[name]
-        construct = "%s._wrap_numpy::dtype-gate[%s]" % (ARRAY, name)
-        if kind in npmodel.NUMERIC_KINDS and want_numeric:
-            run.ob(construct, keeps == {True}, f.fi.where(),
-                   "result dtype %s: unit kept on %s" % (name, "every path" if keeps == {True} else
-                                                         "no path" if keeps == {False} else "some paths only"),
-                   "a + b, a * b, -a, np.sum(a) for Arrays of dtype %s become dimensionless" % name)
-        elif kind == "b" and want_bool:
-            run.ob(construct, keeps == {False}, f.fi.where(),
-                   "boolean result: unit kept on %s" % ("no path" if keeps == {False} else "a path"),
-                   "a < b or np.isfinite(a) carries the operand unit instead of being dimensionless")
 
 
 # =============================================================================== constructor / index gates (D7 on paths)
-def check_array_constructor(run, tree):
-    """Array.__init__ over value kinds: Base -> NotImplementedError; Quantity (+unit -> ValueError) -> magnitude/units;
-    anything else -> values with units(unit); non-ndarray values wrapped with np.asarray."""
-    ci = tree.cls(ARRAY)
-    fi = tree.method(ci, "__init__")
-    run.analysed(fi)
-    pn = params(fi)
-    SELF, VALUES, UNIT = pn[0], pn[1], pn[2]
-    seen = {}
-    for path in enumerate_paths(fi.node.body, exc_paths=False):
-        kind = "other"
-        unit_given = None
-        wrapped = None
-        for it in path:
-            if it[0] == "test":
-                t = it[1]
-                neg = False
-                while isinstance(t, ast.UnaryOp) and isinstance(t.op, ast.Not):
-                    neg, t = not neg, t.operand
-                if isinstance(t, ast.Call) and is_name(t.func, "isinstance") and is_name(t.args[0], VALUES):
-                    r = tree.resolve_expr(fi.module, t.args[1])
-                    nm = getattr(r, "name", None) or (r[1].split(".")[-1] if isinstance(r, tuple) else norm(t.args[1]))
-                    if (it[2] and not neg) or (not it[2] and neg):
-                        kind = nm
-                if isinstance(t, ast.Compare) and is_name(t.left, UNIT) and isinstance(t.comparators[0], ast.Constant) and \
-                        t.comparators[0].value is None:
-                    isnot = isinstance(t.ops[0], ast.IsNot)
-                    unit_given = (it[2] == isnot) if not neg else (it[2] != isnot)
-        stmts = [norm(it[1]) for it in path if it[0] == "stmt"]
-        seen.setdefault((kind, unit_given, path[-1][1]), []).extend(stmts)
-    base_raises = any(k[0] == "Base" and k[2] == "raise" for k in seen)
-    q_unit_raises = any(k[0] == "Quantity" and k[1] is True and k[2] == "raise" for k in seen)
-    q_ok = any(k[0] == "Quantity" and k[2] != "raise" and "%s._array = %s.magnitude" % (SELF, VALUES) in v and
-               "%s._unit = %s.units" % (SELF, VALUES) in v for k, v in seen.items())
-    other_ok = any(k[0] == "other" and k[2] != "raise" and "%s._array = %s" % (SELF, VALUES) in v and
-                   "%s._unit = units(%s)" % (SELF, UNIT) in v for k, v in seen.items())
-    run.ob(ARRAY + ".__init__::rejects-Array-or-Vector", base_raises, fi.where(), "an Array/Vector as values raises: %s" % base_raises,
-           "Array(Array(...)) nests the wrapper: every later operation dispatches wrongly")
-    run.ob(ARRAY + ".__init__::quantity-with-unit-raises", q_unit_raises, fi.where(), "Quantity + explicit unit raises: %s" % q_unit_raises,
-           "Array(3*m, unit='s') silently relabels", nontrivial=False)
-    run.ob(ARRAY + ".__init__::quantity", q_ok, fi.where(), "a Quantity gives magnitude and units: %s" % q_ok,
-           "a + (3*cm): the number 3 is taken as metres")
-    run.ob(ARRAY + ".__init__::plain-values", other_ok, fi.where(), "other values are stored with units(unit): %s" % other_ok,
-           "a + 1.0 or Array([..], 'm') mislabelled")
-    asarr = any("np.asarray(%s._array)" % SELF in " ".join(v) for v in seen.values())
-    run.ob(ARRAY + ".__init__::ndarray-coercion", asarr, fi.where(), "non-ndarray values wrapped with np.asarray: %s" % asarr,
-           "lists/scalars stay Python objects: .shape/.dtype fail", nontrivial=False)
 
 
-def check_array_index_gate(run, tree):
-    """Array.__getitem__ with an osyris index: Vector rejected, dtype must be integer or bool, raw values used."""
-    ci = tree.cls(ARRAY)
-    fi = tree.method(ci, "__getitem__")
-    pn = params(fi)
-    SELF, SL = pn
-    raises = [p for p in enumerate_paths(fi.node.body, exc_paths=False) if p[-1][1] == "raise"]
-    vec_rej = any(any(it[0] == "test" and "isinstance(%s, %s.__class__)" % (SL, SELF) in norm(it[1]) for it in p) for p in raises)
-    dtype_rej = any(any(it[0] == "test" and "%s.dtype not in" % SL in norm(it[1]) and it[2] for it in p) for p in raises)
-    types = None
-    for n in walk_no_nested(fi.node):
-        if isinstance(n, ast.Compare) and norm(n.left) == "%s.dtype" % SL and isinstance(n.ops[0], ast.NotIn):
-            types = [const_value(e, norm(e)) for e in n.comparators[0].elts] if isinstance(n.comparators[0], (ast.Tuple, ast.List)) else None
-    ok_types = types is not None and {"int32", "int64"} <= set(types) and ("bool" in types)
-    run.ob(ARRAY + ".__getitem__::vector-index-rejected", vec_rej, fi.where(), "a Vector index raises: %s" % vec_rej, "a[v] silently uses one component", nontrivial=False)
-    run.ob(ARRAY + ".__getitem__::index-dtype-gate", dtype_rej and ok_types, fi.where(), "index Arrays must be integer or bool: accepted dtypes %s" % types,
-           "a float Array used as index (e.g. a mask multiplied by 1.0) is accepted / a boolean mask is rejected")
